@@ -203,6 +203,9 @@ LEMMAS = [_lemmas]
 def native_replay(ctx, o):
     """map2d / map3d obligations: 2 x N array profiles (N = 2..6, linear and non-monotone values) mapped on the bundled example equilibrium
     are compared, inside the LCFS, with the same interpolator built directly on the two rows and evaluated at psi_normalised(r, z)."""
+    if 'AxisymmetricMapper' in o.name:
+        from .C13 import battery_replay
+        return battery_replay(ctx, o)
     if '.map2d' not in o.name and '.map3d' not in o.name:
         return None
     from replaylib.native import run_native
@@ -235,3 +238,21 @@ print(json.dumps({"bad": bad[:3], "nbad": len(bad)}))
     if out and out.get('nbad'):
         return {'confirmed': True, 'input': out['bad'][0], 'observed': out, 'expected': exp}
     return {'confirmed': False, 'input': None, 'observed': out, 'expected': exp}
+
+
+# ------------------------------------------------------------------------------------------------ the mappers map3d / map_vector3d rest on
+# (same contracts as in C13: the mapped 3D quantity is the 2D one at (sqrt(x^2+y^2), z), a vector additionally rotated by atan2(y, x))
+MPF = "cherab/core/math/mappers.pyx"
+_register_efit = register
+
+
+def register(reg):
+    _register_efit(reg)
+    F3 = {"x": "real", "y": "real", "z": "real"}
+    ext = {'Vector3D.__new__': {'kind': 'fresh', 'result': 'ref:Vector3D', 'alloc': True, 'doc': 'raysect new_vector3d: a freshly allocated vector'},
+           'rotate_z': {'kind': 'pure', 'result': 'ref:AffineMatrix3D', 'doc': 'raysect rotate_z(angle in degrees) pure'}}
+    reg.contract(MPF, "AxisymmetricMapper.evaluate", PROP, sorts=F3, requires=["not is_none(self.function2d)"], externals=ext,
+        ensures=[("composition", "result == self.function2d.evaluate(sqrt(x*x + y*y), z)")], modifies=[])
+    reg.contract(MPF, "VectorAxisymmetricMapper.evaluate", PROP, sorts=F3, requires=["not is_none(self.function2d)"], externals=ext,
+        ensures=[("composition", "same(result, self.function2d.evaluate(sqrt(x*x + y*y), z).transform(rotate_z(atan2(y, x) / M_PI * 180)))")],
+        modifies=[])
